@@ -1099,9 +1099,6 @@ func (h *histRun) monitorIter(o hop, opIdx int, rep *replica, got []iface.IPFSLo
 		}
 	}
 	total := rep.sort == "hash" || !hasTies(entries)
-	if !total {
-		return
-	}
 	fn := sorting.NoZeroes(sortFnOf(rep.sort))
 	// start set
 	var start []iface.IPFSLogEntry
@@ -1135,6 +1132,16 @@ func (h *histRun) monitorIter(o hop, opIdx int, rep *replica, got []iface.IPFSLo
 				rset[k] = p
 			}
 		}
+	}
+	// C15_emits_only_the_past_of_the_bounds: soundness of the range under any ordering, ties included
+	for _, e := range got {
+		if _, ok := rset[e.GetHash().String()]; !ok {
+			h.fail("C15", "iterator-within-past", "C15:emits-entry-outside-the-past-of-its-bounds", "Iterator emitted an entry that is not in the causal past of its upper bounds", opIdx)
+			break
+		}
+	}
+	if !total {
+		return
 	}
 	var R []iface.IPFSLogEntry
 	for _, e := range rset {
